@@ -89,3 +89,46 @@ Proof.
   rewrite E, update_defaults_idempotent, V. reflexivity.
 Qed.
 End Config.
+
+(** * style detection *)
+Lemma unknown_key_refused : forall e l f, In KUnknown f -> detect strict_old e l f = None.
+Proof.
+  intros e l f Hin.
+  assert (Ho : strict_old f = false).
+  { unfold strict_old. destruct (forallb old_knows f) eqn:E; [|reflexivity].
+    rewrite forallb_forall in E. specialize (E _ Hin). discriminate E. }
+  assert (Hn : strict_new f = false).
+  { unfold strict_new. destruct (forallb new_knows f) eqn:E; [|reflexivity].
+    rewrite forallb_forall in E. specialize (E _ Hin). discriminate E. }
+  unfold detect. rewrite Ho, Hn. destruct e; reflexivity.
+Qed.
+
+Lemma accepted_means_every_key_known : forall e l f s,
+  detect strict_old e l f = Some s ->
+  match s with SOld => strict_old f = true | SNew => strict_new f = true end.
+Proof.
+  intros e l f s H. unfold detect in H.
+  destruct e; [destruct (strict_old f) eqn:Eo; inversion H; subst; reflexivity|].
+  destruct (strict_old f) eqn:Eo, (strict_new f) eqn:En; try discriminate H.
+  - destruct l; inversion H; subst; reflexivity.
+  - inversion H; subst; reflexivity.
+  - inversion H; subst; reflexivity.
+Qed.
+
+(** a file with a key only the new style has is a new-style file whatever flags come with it *)
+Lemma new_only_key_means_new_style : forall l f,
+  In KNewOnly f -> strict_new f = true -> detect strict_old false l f = Some SNew.
+Proof.
+  intros l f Hin Hn.
+  assert (Ho : strict_old f = false).
+  { unfold strict_old. destruct (forallb old_knows f) eqn:E; [|reflexivity].
+    rewrite forallb_forall in E. specialize (E _ Hin). discriminate E. }
+  unfold detect. rewrite Ho, Hn. reflexivity.
+Qed.
+
+(** with a non-strict old-style probe: a new-style file without a generate mapping, next to a legacy flag, is taken for an
+    old-style file (and then refused, or - if the final read is not strict either - processed with its sections dropped) *)
+Lemma lax_old_probe_refuted :
+  detect lax_old false true [KCommon; KNewOnly] <> Some SNew
+  /\ detect strict_old false true [KCommon; KNewOnly] = Some SNew.
+Proof. split; [vm_compute; discriminate|reflexivity]. Qed.
